@@ -1,1 +1,80 @@
-fn main() {}
+//! Engine E2 "front": in-process property loops that need no rustc (C11, C12, C15, C16, C18, runtime half of C04).
+mod c04rt;
+mod c11;
+mod c12;
+mod c15;
+mod c16;
+mod c18;
+mod common;
+
+fn arg(args: &[String], name: &str) -> Option<String> {
+    args.iter().position(|a| a == name).and_then(|i| args.get(i + 1).cloned())
+}
+
+fn main() {
+    let args: Vec<String> = std::env::args().collect();
+    let cmd = args.get(1).map(|s| s.as_str()).unwrap_or("");
+    if cmd == "worker" {
+        c15::worker();
+        return;
+    }
+    std::panic::set_hook(Box::new(|_| {}));
+    let seed: u64 = arg(&args, "--seed").map(|s| s.parse().unwrap()).unwrap_or(1);
+    let cases: u32 = arg(&args, "--cases").map(|s| s.parse().unwrap()).unwrap_or(1000);
+    let out = arg(&args, "--out").unwrap_or_else(|| "/dev/null".into());
+    match cmd {
+        "c11" => c11::run(seed, cases, &out),
+        "c12" => c12::run(seed, cases, &out),
+        "c15" => {
+            let tol: Vec<String> = arg(&args, "--tolerate").map(|s| s.split(',').filter(|x| !x.is_empty()).map(|x| x.to_string()).collect()).unwrap_or_default();
+            let hang: u64 = arg(&args, "--hang-secs").map(|s| s.parse().unwrap()).unwrap_or(120);
+            c15::run(seed, cases, &out, tol, hang)
+        }
+        "c15-probe" => {
+            // --nest kind:depth,kind:depth
+            let list = arg(&args, "--nest").unwrap_or_default();
+            let mut texts = vec![];
+            for item in list.split(',').filter(|x| !x.is_empty()) {
+                let mut it = item.split(':');
+                let k: usize = it.next().unwrap().parse().unwrap();
+                let d: usize = it.next().unwrap().parse().unwrap();
+                texts.push((format!("kind{k} depth{d}"), verif_core::texts::nesting_text(k, d)));
+            }
+            c15::probe(texts, &out)
+        }
+        "c18" => c18::run(seed, cases, &out, &arg(&args, "--workdir").expect("--workdir")),
+        "c04rt" => c04rt::run(seed, cases, &out),
+        "c16-gen" => c16::gen(seed, cases, &arg(&args, "--dir").expect("--dir")),
+        "codegen" => c16::codegen(&args),
+        "buildscript" => c16::buildscript(&args),
+        "exit-on-error" => c16::exit_on_error(&args),
+        "texts" => c16::texts(seed, cases, &arg(&args, "--dir").expect("--dir")),
+        "replay" => {
+            let rec: serde_json::Value = serde_json::from_str(&std::fs::read_to_string(&args[2]).unwrap()).unwrap();
+            let prop = rec["property"].as_str().unwrap_or("").to_string();
+            let kind = rec["kind"].as_str().unwrap_or("");
+            let v = match (prop.as_str(), kind) {
+                ("C11", _) => c11::replay(&rec),
+                ("C12", _) => c12::replay(&rec),
+                ("C15", "compile") => c15::replay(&rec),
+                ("C18", _) => c18::replay(&rec, &arg(&args, "--workdir").unwrap_or_else(|| "/tmp".into())),
+                ("C04", "runtime") => c04rt::replay(&rec),
+                _ => {
+                    eprintln!("front replay: unsupported record");
+                    std::process::exit(2);
+                }
+            };
+            match v {
+                Some(v) => {
+                    println!("{}", v);
+                    std::process::exit(1)
+                }
+                None => std::process::exit(0),
+            }
+        }
+        _ => {
+            eprintln!("usage: front <c11|c12|c15|c18|c04rt|c16-gen|codegen|buildscript|exit-on-error|texts|worker|replay> ...");
+            std::process::exit(2);
+        }
+    }
+}
